@@ -1914,15 +1914,25 @@ def m_np_angle(interp, z, *a, **k):
 
 
 def _dft_matrix(N, inverse):
-    """exact DFT matrix for N in {1, 2, 4} (entries in {1, -1, j, -j}); larger sizes need irrational roots of unity"""
-    if N not in (1, 2, 4):
-        raise EngineError("symbolic FFT only modelled for sizes 1, 2, 4 (exact roots of unity); got %d" % N)
-    w = {1: [1], 2: [1, -1], 4: [1, -1j, -1, 1j]}[N]
+    """exact DFT matrix for N in {1, 2, 4} (entries in {1, -1, j, -j}) and N = 8 (entries a + bj with a, b in {0, +-1, +-h},
+    h = sqrt(1/2) carried as an uninterpreted constant with h^2 = 1/2 - all the normaliser needs); other sizes need further
+    irrational roots of unity"""
+    if N not in (1, 2, 4, 8):
+        raise EngineError("symbolic FFT only modelled for sizes 1, 2, 4, 8 (exact roots of unity); got %d" % N)
+    if N == 8:
+        from fractions import Fraction
+        h = lift(Fraction(1, 2)).sqrt()
+        z = lift(0)
+        one = lift(1)
+        w = [SComplex(one, z), SComplex(h, -h), SComplex(z, -one), SComplex(-h, -h), SComplex(-one, z), SComplex(-h, h), SComplex(z, one),
+             SComplex(h, h)]
+    else:
+        w = {1: [1], 2: [1, -1], 4: [1, -1j, -1, 1j]}[N]
     M = np.empty((N, N), dtype=object)
     for k in range(N):
         for n in range(N):
             v = w[(k * n) % N]
-            M[k, n] = v.conjugate() if (inverse and isinstance(v, complex)) else v
+            M[k, n] = v.conjugate() if (inverse and isinstance(v, (complex, SComplex))) else v
     return M
 
 
